@@ -27,6 +27,8 @@ class LoopInfo:
         self.reads: t.List[Read] = []
         self.advance: t.Dict[str, Lin] = {}
         self.appends: t.Dict[str, t.Any] = {}
+        self.append_n: t.Dict[str, int] = {}
+        self.outer_lists: t.Set[str] = set()
 
 
 class Outcome:
@@ -195,12 +197,42 @@ class Interp:
             and getattr(st, "loops", [])
             and not isinstance(st.env.get(v.func.value.id), SBytes)
         ):
-            name = v.func.value.id
-            loop: LoopInfo = st.loops[-1]  # type: ignore[attr-defined]
-            loop.appends[name] = self.ev.eval(v.args[0], st)
+            self._loop_append(st, v.func.value.id, [self.ev.eval(v.args[0], st)], s)
+            return [(st, Outcome("fall"))]
+        # L.extend([a, b, ..]) on a list that lives across the iterations of the enclosing loop
+        if (
+            isinstance(v, ast.Call)
+            and isinstance(v.func, ast.Attribute)
+            and v.func.attr == "extend"
+            and isinstance(v.func.value, ast.Name)
+            and getattr(st, "loops", [])
+            and v.func.value.id in st.loops[-1].outer_lists  # type: ignore[attr-defined]
+            and len(v.args) == 1
+        ):
+            items = self.ev.eval(v.args[0], st)
+            if not isinstance(items, (list, STuple)):
+                raise Unsupported(f"{self.func.qual}:{s.lineno}: {unparse(v)} inside a loop")
+            self._loop_append(st, v.func.value.id, list(items if isinstance(items, list) else items.items), s)
             return [(st, Outcome("fall"))]
         self.ev.eval(s.value, st)
         return [(st, Outcome("fall"))]
+
+    def _loop_append(self, st: State, name: str, values: t.List[t.Any], node: ast.AST) -> None:
+        """One trip of the innermost loop adds `values` to the list `name`.  A single element per trip is kept as it is
+        (the list then has one entry per trip); several are kept as their concatenation, which is all a later
+        b"".join(name) can see - the number of entries per trip is remembered for len(name)."""
+        loop: LoopInfo = st.loops[-1]  # type: ignore[attr-defined]
+        if name not in loop.appends and len(values) == 1:
+            loop.appends[name] = values[0]
+            loop.append_n[name] = 1
+            return
+        acc = SBytes([])
+        if name in loop.appends:
+            acc = acc + self.ev.seq_to_bytes(loop.appends[name], node)
+        for v in values:
+            acc = acc + self.ev.seq_to_bytes(v, node)
+        loop.appends[name] = acc
+        loop.append_n[name] = loop.append_n.get(name, 0) + len(values)
 
     def assign(self, target: ast.expr, value: t.Any, st: State, node: ast.AST) -> None:
         if isinstance(target, ast.Name):
@@ -257,6 +289,9 @@ class Interp:
             if loops and name in loops[-1].deltas:
                 loops[-1].deltas[name] = loops[-1].deltas[name] + add
             st.env[name] = cur + add
+            return [(st, Outcome("fall"))]
+        if isinstance(s.op, ast.Add) and isinstance(cur, list) and isinstance(val, (list, STuple)) and getattr(st, "loops", []) and name in st.loops[-1].outer_lists:  # type: ignore[attr-defined]
+            self._loop_append(st, name, list(val if isinstance(val, list) else val.items), s)
             return [(st, Outcome("fall"))]
         if isinstance(s.op, ast.Add) and isinstance(cur, list) and isinstance(val, (list, STuple)):
             st.env[name] = list(cur) + list(val if isinstance(val, list) else val.items)
@@ -366,7 +401,9 @@ class Interp:
             if not (isinstance(src, TRef) and src.typ[0] == "list" and isinstance(s.target, ast.Tuple) and len(s.target.elts) == 2):
                 raise Unsupported(f"{self.func.qual}:{s.lineno}: enumerate over {src!r}")
             loop.count, loop.over = Lin.atom(("len", src.path)), src.path
-            self.assign(s.target.elts[0], Lin.atom(("iter", loop.lid)), sub, s)
+            start_e = s.iter.args[1] if len(s.iter.args) > 1 else next((k.value for k in s.iter.keywords if k.arg == "start"), None)
+            start = self.ev.as_lin(self.ev.eval(start_e, st), start_e) if start_e is not None else Lin(0)
+            self.assign(s.target.elts[0], Lin.atom(("iter", loop.lid)) + start, sub, s)
             self.assign(s.target.elts[1], typed_value(f"{src.path}[*]", src.typ[1]), sub, s)
         elif isinstance(it, TRef) and it.typ[0] == "list":
             # total = c; for x in xs: total += len(x)   ->   total = c + len(b"".join(xs))   (a pure size summation loop)
@@ -469,7 +506,7 @@ class Interp:
             elif isinstance(cur, SBytes):
                 loop.deltas[name] = SBytes([])
             elif isinstance(cur, list):
-                pass
+                loop.outer_lists.add(name)
         sub.loops = list(getattr(st, "loops", [])) + [loop]  # type: ignore[attr-defined]
         sub.reads = list(sub.reads)
         outs = self.block(body, sub)
@@ -524,11 +561,16 @@ class Interp:
                 [Seg("repeat", width, over=cloop.over, count=cloop.count, body=delta.segs, var=None)]
             )
         for name, elem in cloop.appends.items():
+            k = cloop.append_n.get(name, 1)
+            before = st.env.get(name)
             if cloop.over and not cloop.reads:
                 # a list built from the elements of a field (writer side): same value as [ELT for v in field]
-                after.env[name] = ("repeat", cloop.over, cloop.count, elem, None)
-            else:
+                rep: t.Any = ("repeat", cloop.over, cloop.count, elem, None) if k == 1 else ("repeatk", cloop.over, cloop.count, elem, None, k)
+                after.env[name] = list(before) + [rep] if isinstance(before, list) and before else rep
+            elif k == 1 and not (isinstance(before, list) and before):
                 after.env[name] = ("rrepeat", rid, elem)
+            else:
+                raise Unsupported(f"{self.func.qual}:{s.lineno}: list {name} receives {k} entries per iteration of a reading loop")
         res: t.List[t.Tuple[State, Outcome]] = [(after, Outcome("fall"))]
         for x, o in early:
             res.append((x, o))
